@@ -1,6 +1,6 @@
-CONSTANTS MaxOps = 2
+CONSTANTS MaxOps = 3
  MaxLive = 2
- CfgNames = {"none", "sn", "mix"}
+ CfgNames = {"sn", "mix"}
  MaxSigs = 2
  EarlyRestart = FALSE
 SPECIFICATION Spec
